@@ -1,3 +1,324 @@
 import B6.Driver.Common
-/-! Driver for C20 — stub (the check for this property is not built yet). -/
-def main : IO Unit := B6.Driver.run { σ := Unit, init := (), step := fun s _ _ => (s, .bad) }
+import B6.Model.Shell
+/-!
+Driver for C20.  Stateless.  Byte strings are `x<hex>`; an ID is the word `type:nshex:value`.
+
+expression  K = `(sym x)` `(str x)` `(int n)` `(float xTEXT)` `(pt xLAT xLNG)` `(id ID)` `(tag xK xV)` `(query Q)`
+                `(call 0|1 K K*)` `(lam (x*) K)`          Q = `(keyed x)` `(tagged x x)` `(and Q*)` `(or Q*)`
+parsed      `(E begin end K')` with K' as K but children `(E …)` and points as `(pt latE7 lngE7)`
+
+ops
+  `up K`     answer `U | P` : U = `x<hex of UnparseExpression's text>` | `fail` | `panic`; P = ParseExpression of that text,
+             `(E …)` | `err` | `-`
+  `ws xTEXT` answer `P`     : ParseExpression of a text (printed text with extra white space, damaged text, …)
+
+The model prints (tokens → text) and lexes + parses the implementation's text.  The property predicate is evaluated on
+the implementation's answers: for a printable expression the text must parse, the parsed tree without positions must be
+the normal form of the expression (points at E7), every node's span must lie inside its parent's, and every leaf's span
+must hold exactly the tokens of that leaf.
+-/
+open B6.Driver B6.Model.Shell B6.Model.FeatureID
+namespace B6.Driver.C20
+
+/-! ### S-expressions -/
+
+inductive SExp where
+  | atom (s : String)
+  | list (xs : List SExp)
+  deriving Inhabited
+
+def tokenize (s : String) : List String :=
+  let padded := String.ofList (s.toList.flatMap fun c =>
+    if c == '(' || c == ')' then [' ', c, ' '] else [c])
+  words padded
+
+partial def parseSExp : List String → Option (SExp × List String)
+  | [] => none
+  | "(" :: rest =>
+    let rec go (ts : List String) (acc : List SExp) : Option (SExp × List String) :=
+      match ts with
+      | [] => none
+      | ")" :: rest => some (.list acc.reverse, rest)
+      | _ =>
+        match parseSExp ts with
+        | some (x, rest) => go rest (x :: acc)
+        | none => none
+    go rest []
+  | ")" :: _ => none
+  | t :: rest => some (.atom t, rest)
+
+def readSExp (s : String) : Option SExp :=
+  match parseSExp (tokenize s) with
+  | some (x, []) => some x
+  | _ => none
+
+def paren (xs : List String) : String := "(" ++ " ".intercalate xs ++ ")"
+
+def aBytes : SExp → Option Bytes
+  | .atom s => if s.startsWith "x" then (parseHex (if s.length == 1 then "-" else sdrop s 1)).map (·.map UInt8.toNat) else none
+  | _ => none
+def rBytes (b : Bytes) : String := "x" ++ (if b.isEmpty then "" else renderHex (b.map UInt8.ofNat))
+def aNat : SExp → Option Nat
+  | .atom s => s.toNat?
+  | _ => none
+def aInt : SExp → Option Int
+  | .atom s => s.toInt?
+  | _ => none
+def aBool : SExp → Option Bool
+  | .atom "0" => some false
+  | .atom "1" => some true
+  | _ => none
+
+def typeName : FType → String
+  | .point => "point" | .path => "path" | .area => "area" | .relation => "relation"
+  | .invalid => "invalid" | .collection => "collection" | .expression => "expression"
+def parseType : String → Option FType
+  | "point" => some .point | "path" => some .path | "area" => some .area
+  | "relation" => some .relation | "invalid" => some .invalid
+  | "collection" => some .collection | "expression" => some .expression | _ => none
+
+def aID : SExp → Option FeatureID
+  | .atom s =>
+    match s.splitOn ":" with
+    | [t, ns, v] => do
+      let t ← parseType t
+      let ns ← (parseHex ns).map (·.map UInt8.toNat)
+      let v ← v.toNat?
+      pure ⟨t, ns, v⟩
+    | _ => none
+  | _ => none
+def rID (f : FeatureID) : String := s!"{typeName f.type}:{renderHex (f.ns.map UInt8.ofNat)}:{f.value}"
+
+/-! ### decimal text → E7 (exact; round half away from zero) -/
+
+def digitsVal (ds : Bytes) : Nat := ds.foldl (fun a c => a * 10 + (c - 48)) 0
+
+def e7OfText (t : Bytes) : Int :=
+  let (neg, body) := match t with
+    | 45 :: r => (true, r)
+    | _ => (false, t)
+  let ip := body.takeWhile (· ≠ 46)
+  let fp := (body.dropWhile (· ≠ 46)).drop 1
+  let num := digitsVal ip * 10 ^ fp.length + digitsVal fp       -- value = num / 10^|fp|
+  let den := 10 ^ fp.length
+  let r := (2 * num * 10000000 + den) / (2 * den)
+  if neg then -(r : Int) else (r : Int)
+
+/-! ### reading / writing trees -/
+
+mutual
+partial def decQ : SExp → Option Q
+  | .list [.atom "keyed", k] => do pure (.keyed (← aBytes k))
+  | .list [.atom "tagged", k, v] => do pure (.tagged (← aBytes k) (← aBytes v))
+  | .list (.atom "and" :: qs) => do pure (.and (← decQL qs))
+  | .list (.atom "or" :: qs) => do pure (.or (← decQL qs))
+  | _ => none
+partial def decQL : List SExp → Option QL
+  | [] => some .nil
+  | q :: qs => do pure (.cons (← decQ q) (← decQL qs))
+end
+
+mutual
+partial def rQ : Q → String
+  | .keyed k => paren ["keyed", rBytes k]
+  | .tagged k v => paren ["tagged", rBytes k, rBytes v]
+  | .and qs => paren ("and" :: rQL qs)
+  | .or qs => paren ("or" :: rQL qs)
+partial def rQL : QL → List String
+  | .nil => []
+  | .cons q qs => rQ q :: rQL qs
+end
+
+/-- literals; points are written at E7 -/
+def rLit : Lit → String
+  | .str s => paren ["str", rBytes s]
+  | .int i => paren ["int", toString i]
+  | .float t => paren ["float", rBytes t]
+  | .point lat lng => paren ["pt", toString (e7OfText lat), toString (e7OfText lng)]
+  | .id f => paren ["id", rID f]
+  | .tag k v => paren ["tag", rBytes k, rBytes v]
+  | .query q => paren ["query", rQ q]
+
+def decLit : SExp → Option Lit
+  | .list [.atom "str", s] => do pure (.str (← aBytes s))
+  | .list [.atom "int", i] => do pure (.int (← aInt i))
+  | .list [.atom "float", t] => do pure (.float (← aBytes t))
+  | .list [.atom "pt", a, b] => do pure (.point (← aBytes a) (← aBytes b))
+  | .list [.atom "id", f] => do pure (.id (← aID f))
+  | .list [.atom "tag", k, v] => do pure (.tag (← aBytes k) (← aBytes v))
+  | .list [.atom "query", q] => do pure (.query (← decQ q))
+  | _ => none
+
+mutual
+partial def decSE : SExp → Option SE
+  | .list [.atom "sym", s] => do pure (.sym (← aBytes s))
+  | .list (.atom "call" :: p :: f :: args) => do pure (.call (← decSE f) (← decSEL args) (← aBool p))
+  | .list [.atom "lam", .list ps, body] => do pure (.lambda (← ps.mapM aBytes) (← decSE body))
+  | x => (decLit x).map .lit
+partial def decSEL : List SExp → Option SEL
+  | [] => some .nil
+  | e :: es => do pure (.cons (← decSE e) (← decSEL es))
+end
+
+mutual
+partial def rSE : SE → String
+  | .sym s => paren ["sym", rBytes s]
+  | .lit l => rLit l
+  | .call f args p => paren ("call" :: (if p then "1" else "0") :: rSE f :: rSEL args)
+  | .lambda ps body => paren ["lam", paren (ps.map rBytes), rSE body]
+partial def rSEL : SEL → List String
+  | .nil => []
+  | .cons e es => rSE e :: rSEL es
+end
+
+mutual
+partial def rPE : PE → String
+  | .mk k b e => paren ["E", toString b, toString e, rPK k]
+partial def rPK : PK → String
+  | .sym s => paren ["sym", rBytes s]
+  | .lit l => rLit l
+  | .call f args p => paren ("call" :: (if p then "1" else "0") :: rPE f :: rPEL args)
+  | .lambda ps body => paren ["lam", paren (ps.map rBytes), rPE body]
+partial def rPEL : PEL → List String
+  | .nil => []
+  | .cons e es => rPE e :: rPEL es
+end
+
+/-! the implementation's parsed tree is read into a spanned tree whose points are already E7 pairs: keep those
+as a separate light structure for the checks -/
+
+inductive IT where
+  | node (b e : Nat) (kind : String) (leaf : Option (List String)) (children : List IT)
+  deriving Inhabited
+
+/-- read `(E b e K')`: `kind` is K' rendered without positions (children stripped), `leaf` the words of a leaf -/
+partial def decIT : SExp → Option (IT × String)
+  | .list [.atom "E", b, e, k] => do
+    let b ← aNat b
+    let e ← aNat e
+    match k with
+    | .list (.atom "call" :: .atom p :: f :: args) =>
+      let (fi, fs) ← decIT f
+      let as ← args.mapM decIT
+      let s := paren ("call" :: p :: fs :: as.map (·.2))
+      pure (.node b e "call" none (fi :: as.map (·.1)), s)
+    | .list [.atom "lam", .list ps, body] =>
+      let (bi, bs) ← decIT body
+      let pws ← ps.mapM fun x => match x with | .atom a => some a | _ => none
+      pure (.node b e "lam" none [bi], paren ["lam", paren pws, bs])
+    | other =>
+      let rec flat : SExp → String
+        | .atom a => a
+        | .list xs => paren (xs.map flat)
+      let s := flat other
+      pure (.node b e "leaf" (some (tokenize s)) [], s)
+  | _ => none
+
+partial def nested : IT → Bool
+  | .node b e _ _ children =>
+    b ≤ e && children.all fun c =>
+      match c with
+      | .node cb ce _ _ _ => b ≤ cb && ce ≤ e && nested c
+
+/-- the tokens a leaf is printed with -/
+def leafToks (words : List String) : Option (List Tok) :=
+  match (parseSExp words).bind fun (x, _) => decLit x with
+  | some l =>
+    -- a parsed point carries E7 values, not texts: only its shape (FLOAT , FLOAT) is checked
+    some l.toks
+  | none =>
+    match (parseSExp words).bind fun (x, _) => decSE x with
+    | some (.sym s) => some [.sym s]
+    | _ => none
+
+def sameTok (a b : Tok) : Bool :=
+  match a, b with
+  | .float _, .float _ => true          -- a parsed point / float has no text to compare at this level
+  | _, _ => a == b
+
+/-- every leaf's span holds exactly that leaf's tokens -/
+partial def covers (lexed : List PTok) : IT → Bool
+  | .node b e _ (some ws) _ =>
+    let inside := (lexed.filter fun t => b ≤ t.b && t.e ≤ e).map (·.tok)
+    let notBracket (t : Tok) : Bool := t != Tok.p 91 && t != Tok.p 93
+    match ws with
+    | "(" :: "pt" :: _ => inside.length == 3 && (inside.zip [Tok.float [], .p 44, .float []]).all fun (x, y) => sameTok x y
+    | "(" :: "query" :: _ =>
+      -- a parsed query is nested to the right and printed with more brackets than the text had: compare without them
+      match leafToks ws with
+      | some ts =>
+        let a := inside.filter notBracket
+        let b := ts.filter notBracket
+        a.length == b.length && (a.zip b).all fun (x, y) => sameTok x y
+      | none => false
+    | _ =>
+      match leafToks ws with
+      | some ts => inside.length == ts.length && (inside.zip ts).all fun (x, y) => sameTok x y
+      | none => false
+  | .node _ _ _ none children => children.all (covers lexed)
+
+def parseFuel (ts : List PTok) : Nat := 4 * ts.length + 16
+
+/-- model: lex and parse a text -/
+def modelParse (text : Bytes) : String × Option (List PTok) :=
+  match lex text with
+  | .err => ("err", none)
+  | .unsupported => ("unsupported", none)
+  | .ok ts =>
+    match parseTop (parseFuel ts) ts with
+    | .ok e => (rPE e, some ts)
+    | .err => ("err", some ts)
+    | .unsupported => ("unsupported", some ts)
+    | .fuel => ("fuel", some ts)
+
+def isTree (s : String) : Bool := s.startsWith "("
+
+def step (_ : Unit) (op impl : String) : Unit × Verdict :=
+  let v : Verdict :=
+    if op.startsWith "up " then
+      match (readSExp (sdrop op 3)).bind decSE, (impl.splitOn " | ").map strim with
+      | some e, [u, p] =>
+        let mu := match e.toks true with
+          | .ok ts => rBytes (render ts)
+          | .fail => "fail"
+          | .panic => "panic"
+        -- the text the implementation printed, parsed by the model
+        let implText := if u.startsWith "x" then aBytes (.atom u) else none
+        let (mp, lexed) := match implText with
+          | some t => modelParse t
+          | none => ("-", none)
+        -- the property, on the implementation's answers
+        let roundtrips :=
+          match implText, (readSExp p).bind decIT, lexed with
+          | some _, some (it, stripped), some ts => stripped == rSE e.normC && nested it && covers ts it
+          | _, _, _ => false
+        if e.printable false && !roundtrips then .propfail "print-parse-roundtrip"
+        else if !e.printable false && e.printable true && !roundtrips then
+          .propfail "print-parse-roundtrip class=string-needs-escape"
+        else if u != mu then .diff s!"U:{mu}"
+        else if mp == "unsupported" then .bad
+        else if p != mp then .diff s!"P:{mp}"
+        else .ok
+      | _, _ => .bad
+    else if op.startsWith "ws " then
+      match aBytes (.atom (sdrop op 3)) with
+      | some text =>
+        let (mp, lexed) := modelParse text
+        let holds :=
+          !isTree impl ||
+            (match (readSExp impl).bind decIT, lexed with
+             | some (it, _), some ts => nested it && covers ts it
+             | _, _ => false)
+        if mp == "unsupported" then .bad
+        else if !holds then .propfail "span-nesting"
+        else if impl != mp then .diff s!"P:{mp}"
+        else .ok
+      | none => .bad
+    else .bad
+  ((), v)
+
+def family : Family := { σ := Unit, init := (), step := step }
+
+end B6.Driver.C20
+
+def main : IO Unit := B6.Driver.run B6.Driver.C20.family
